@@ -112,6 +112,18 @@ def diff_replay(seed, nrand):
             a, b = norm(paths["source"]), norm(paths["embedded"])
             first = next((i for i, (x, y) in enumerate(zip(a, b)) if x != y), None)
             same = a == b
+            if not same:
+                # a difference only counts if the driver is deterministic: run the source mode once more
+                p2 = paths["source"] + ".again"
+                e2 = dict(envs[0], VERIF_OUT=p2)
+                try:
+                    V.go_drive(binary, [e2], timeout=1500)
+                    if norm(p2) != a:
+                        V.log("differential replay %s %s: the driver is not deterministic for one seed (source run differs from "
+                              "itself) - skipped, no verdict from this driver" % (fam, mode_env))
+                        continue
+                except V.Inconclusive:
+                    pass
             name = fam if len(DIFF_MODES.get(fam, [1])) == 1 else "%s#%d" % (fam, mi)
             out.append(dict(act="diffreplay", name=name, same=same, lines=len(a), res="HALT", t=0,
                             firstDiff=-1 if first is None else first + 1))
